@@ -1168,24 +1168,24 @@ func RunSliceExpr(ctx *Task, expr *ast.SliceExpr) *errchain.PlError {
 	case ast.String:
 		str := obj.V.(string)
 		if stepInt > 0 {
-			result := ""
+			result := make([]byte, 0, length)
 			if startInt < 0 {
 				startInt = 0
 			}
 			for i := startInt; i < endInt && i < length; i += stepInt {
-				result += string(str[i])
+				result = append(result, str[i])
 			}
-			ctx.Regs.ReturnAppend(V{result, ast.String})
+			ctx.Regs.ReturnAppend(V{string(result), ast.String})
 			return nil
 		} else {
-			result := ""
+			result := make([]byte, 0, length)
 			if startInt > length-1 {
 				startInt = length - 1
 			}
 			for i := startInt; i > endInt && i >= 0; i += stepInt {
-				result += string(str[i])
+				result = append(result, str[i])
 			}
-			ctx.Regs.ReturnAppend(V{result, ast.String})
+			ctx.Regs.ReturnAppend(V{string(result), ast.String})
 			return nil
 		}
 	default:
